@@ -127,6 +127,13 @@ _CODECS = _PureModule("codecs", {"getdecoder": _codecs_mod.getdecoder, "getencod
 import re as _re_mod
 import sys as _sys_mod
 _SYS = _PureModule("sys", {"maxsize": _sys_mod.maxsize})
+import reprlib as _reprlib_mod
+import unicodedata as _ud_mod
+_REPRLIB = _PureModule("reprlib", {"repr": _reprlib_mod.repr})
+_UNICODEDATA = _PureModule("unicodedata", {k: getattr(_ud_mod, k) for k in ("normalize", "category", "combining", "east_asian_width", "name")})
+import string as _string_mod
+_STRING = _PureModule("string", {k: getattr(_string_mod, k) for k in ("ascii_letters", "ascii_lowercase", "ascii_uppercase", "digits", "hexdigits",
+                                                                       "octdigits", "punctuation", "printable", "whitespace")})
 import errno as _errno_mod
 _ERRNO = _PureModule("errno", {k: getattr(_errno_mod, k) for k in dir(_errno_mod) if k.startswith("E")})
 
@@ -157,6 +164,8 @@ SAFE_BUILTINS = {
     "NotImplemented": NotImplemented, "Exception": Exception, "ValueError": ValueError, "TypeError": TypeError,
     "KeyError": KeyError, "IndexError": IndexError, "AttributeError": AttributeError,
     "NotImplementedError": NotImplementedError, "UnicodeDecodeError": UnicodeDecodeError,
+    "format": format, "OSError": OSError, "StopIteration": StopIteration, "RuntimeError": RuntimeError,
+    "AssertionError": AssertionError, "LookupError": LookupError, "ArithmeticError": ArithmeticError,
 }
 def _public(t):
     return {n for n in dir(t) if not n.startswith("_")}
@@ -267,7 +276,8 @@ class Folder:
                 for a in st.names:
                     nm = a.asname or a.name.split(".")[0]
                     env[nm] = itertools if a.name == "itertools" else _CODECS if a.name == "codecs" else \
-                        _SYS if a.name == "sys" else _RE if a.name == "re" else _ERRNO if a.name == "errno" else Opaque("module %s" % a.name)
+                        _SYS if a.name == "sys" else _RE if a.name == "re" else _ERRNO if a.name == "errno" else _REPRLIB if a.name == "reprlib" else _STRING if a.name == "string" else _UNICODEDATA if a.name == "unicodedata" else \
+                        Opaque("module %s" % a.name)
             elif isinstance(st, (ast.Assign, ast.AnnAssign)):
                 if getattr(st, "value", None) is None:
                     return
